@@ -250,6 +250,9 @@ func checkC08(c *Ctx) {
 	// scopes obtained after Close are inert: Tagged/SubScope go through the registry, which tests the
 	// closed flags (shared with C07 O4)
 	c.checkDerivationThroughRegistry("O5 through-registry")
+	// a Close that lands while a periodic pass is inside the root's report must not make that pass drop
+	// the root: the flag deciding the removal is sampled before the scope is reported (shared with C01 O9)
+	c.checkReportBeforeClear("O1 flag-before-report", "O1 report-before-clear")
 	c.checkInertAndClose("O5 inert-and-close", fClosed)
 	// handles obtained before Close stay harmless: the storage a metric handle indexes is assigned at
 	// construction only (never released or replaced by clearMetrics / Close)
